@@ -351,6 +351,8 @@ class Effects:
                 out |= self.expr_roots(f, v)
             return out
         if isinstance(e, ast.Attribute):
+            if e.attr == '__class__':
+                return {'class'}
             return self._derive(self.expr_roots(f, e.value), e)
         if isinstance(e, ast.Subscript):
             base = self.expr_roots(f, e.value)
@@ -390,6 +392,8 @@ class Effects:
                     out |= {x for x in self.expr_roots(f, a) if x not in ('const', 'fresh') and not (isinstance(x, tuple) and x[0] == 'of')}
                 return out or {'unknown'}
             if isinstance(e.func, ast.Name):
+                if e.func.id == 'type' and len(e.args) == 1:
+                    return {'class'}
                 if e.func.id in ('len', 'int', 'float', 'str', 'bool', 'isinstance', 'hasattr', 'repr', 'range', 'callable', 'type'):
                     return {'const'}
                 if e.func.id == 'eval':
